@@ -13,6 +13,7 @@ TOKEN_TEXTS = [";", "(", ")", "[", "]", "{", "}", ",", ".", "-", "+", "/", "*", 
 
 class PROP(PropCheck):
     id = "C08"
+    mismatch_is_failure = False
     theorems = ["C08_lex_total", "C08_lex_output_shaped", "C08_parse_no_panic", "C08_parse_fuel_enough", "C08_parse_result",
                 "C08_synchronize_progress", "C08_declaration_progress", "C08_front_end_total"]
     coq_imports = ["Obs"]
